@@ -195,12 +195,22 @@ func runOp(in *instances, op OpSpec) (d string) {
 		}
 		txt := text(r, 1+r.intn(n), class)
 		hints := map[gozxing.EncodeHintType]interface{}{gozxing.EncodeHintType_ERROR_CORRECTION: ecLevels[r.intn(4)]}
-		switch r.intn(5) {
+		switch r.intn(6) {
 		case 3:
 			// spellings that are not registry keys: whatever the library does
 			// with them (reject, resolve an alias), it must do it the same way
 			// under any interleaving and without touching shared state
 			hints[gozxing.EncodeHintType_CHARACTER_SET] = []string{"utf-8", "WINDOWS-1252", "latin1", "shift-jis", "us-ascii", "Utf8", "iso-8859-15", "EUC_JP"}[r.intn(8)]
+		case 4:
+			// every registered character set in turn (each has its own ECI entry
+			// and its own x/text encoder/decoder objects)
+			all := []string{"Cp437", "ISO8859_1", "ISO8859_2", "ISO8859_3", "ISO8859_4", "ISO8859_5", "ISO8859_6", "ISO8859_7", "ISO8859_8", "ISO8859_9",
+				"ISO8859_10", "ISO8859_11", "ISO8859_13", "ISO8859_14", "ISO8859_15", "ISO8859_16", "SJIS", "Cp1250", "Cp1251", "Cp1252", "Cp1256",
+				"UnicodeBigUnmarked", "UTF-16BE", "UTF8", "ASCII", "Big5", "GB18030", "EUC_KR"}
+			hints[gozxing.EncodeHintType_CHARACTER_SET] = all[r.intn(len(all))]
+			if class > 2 {
+				txt = text(r, 1+r.intn(30), r.intn(3)) // keep it representable in single-byte sets
+			}
 		case 1:
 			hints[gozxing.EncodeHintType_CHARACTER_SET] = "UTF-8"
 		case 2:
@@ -230,6 +240,32 @@ func runOp(in *instances, op OpSpec) (d string) {
 		}
 		res, err := in.qrr.Decode(bmp, dh)
 		return digestMatrix(m, nil) + " | " + digestResult(res, err)
+	case "qreci":
+		// QR round trip in one given registered character set (P selects it):
+		// each set has its own registry entry and x/text encoder / decoder objects
+		if in.qrw == nil {
+			in.qrw = qrcode.NewQRCodeWriter()
+			in.qrr = qrcode.NewQRCodeReader()
+		}
+		all := []string{"Cp437", "ISO8859_1", "ISO8859_2", "ISO8859_3", "ISO8859_4", "ISO8859_5", "ISO8859_7", "ISO8859_9",
+			"ISO8859_13", "ISO8859_15", "ISO8859_16", "SJIS", "Cp1250", "Cp1251", "Cp1252", "Cp1256",
+			"UnicodeBigUnmarked", "UTF-16BE", "UTF8", "ASCII", "Big5", "GB18030", "EUC_KR", "UnicodeBig", "GBK", "US-ASCII"}
+		cs := all[op.P%len(all)]
+		txt := text(r, 1+r.intn(40), r.intn(3))
+		if cs == "UnicodeBigUnmarked" || cs == "UTF-16BE" || cs == "UnicodeBig" || cs == "UTF8" {
+			txt = text(r, 1+r.intn(40), r.intn(5))
+		}
+		hints := map[gozxing.EncodeHintType]interface{}{gozxing.EncodeHintType_CHARACTER_SET: cs}
+		m, err := in.qrw.Encode(txt, gozxing.BarcodeFormat_QR_CODE, 0, 0, hints)
+		if err != nil {
+			return "W " + digestMatrix(m, err)
+		}
+		bmp, err := gozxing.NewBinaryBitmapFromImage(m)
+		if err != nil {
+			return "B " + err.Error()
+		}
+		res, err := in.qrr.Decode(bmp, map[gozxing.DecodeHintType]interface{}{gozxing.DecodeHintType_PURE_BARCODE: true})
+		return cs + " " + digestMatrix(m, nil) + " | " + digestResult(res, err)
 	case "dm":
 		if in.dmw == nil {
 			in.dmw = datamatrix.NewDataMatrixWriter()
@@ -350,6 +386,11 @@ func runOp(in *instances, op OpSpec) (d string) {
 		ad := make([]int, n)
 		for i := range ad {
 			ad[i] = r.intn(10)
+		}
+		if n == 5 && r.intn(3) == 0 {
+			// the 5-digit values with a special meaning (price table entries)
+			sp := [][]int{{9, 0, 0, 0, 0}, {9, 9, 9, 9, 1}, {9, 9, 9, 9, 0}, {5, 1, 2, 9, 5}, {0, 0, 9, 9, 9}, {9, 8, 0, 0, 0}}
+			ad = sp[r.intn(len(sp))]
 		}
 		par := ref.EAN2Parity(ad[0]*10 + ad[1])
 		if n == 5 {
